@@ -190,7 +190,7 @@ func init() {
 				{Module: "MC_GcsResumable", Quick: map[string]string{"PayloadLen": "3", "MaxPuts": "4"}, Thorough: map[string]string{"PayloadLen": "4", "MaxPuts": "5"},
 					SampleQ: "1", SampleT: "1", Invariants: []string{"InvGen", "InvPrefix", "InvComplete"}, Properties: []string{"FailedIsNoop"}}},
 			Gen: func(r *rand.Rand) []gcs.Op {
-				return genGcsProgram(r, gcsProfile{fileSafe: true, n: 22, pCond: 0.1, wUpload: 4, wResum: 2, wPatch: 0.5, wDelete: 1.5, wRead: 3, wCompose: 0.3, wCopy: 0.3, wList: 0.4, maxResum: 40})
+				return genGcsProgram(r, gcsProfile{fileSafe: true, n: 22, pCond: 0.1, wUpload: 4, wResum: 2, wPatch: 0.5, wDelete: 1.5, wRead: 3, wCompose: 0.3, wCopy: 0.3, wList: 0.4, maxResum: 40, wBatch: 0.5})
 			}, NRandQ: 60, NRandT: 1500})
 		// memory store only: names that are not representable as files, larger payloads
 		r := rand.New(rand.NewSource(c.Seed + 99))
@@ -232,7 +232,7 @@ func init() {
 			Models: []gcsModel{{Module: "MC_GcsConds", Quick: map[string]string{"WithBad": "TRUE"}, Thorough: map[string]string{"WithBad": "TRUE"},
 				SampleQ: "5", SampleT: "1", Invariants: []string{"InvGen"}, Properties: []string{"FailedIsNoop", "CondLaw"}}},
 			Gen: func(r *rand.Rand) []gcs.Op {
-				return genGcsProgram(r, gcsProfile{fileSafe: true, n: 24, pCond: 0.6, wUpload: 3, wResum: 1, wPatch: 2, wDelete: 1.5, wRead: 0.5, wCompose: 1, wCopy: 0.2, fewNames: 3, maxResum: 20})
+				return genGcsProgram(r, gcsProfile{fileSafe: true, n: 24, pCond: 0.6, wUpload: 3, wResum: 1, wPatch: 2, wDelete: 1.5, wRead: 0.5, wCompose: 1, wCopy: 0.2, fewNames: 3, maxResum: 20, wBatch: 0.8})
 			}, NRandQ: 50, NRandT: 1500})
 	}
 	checks["C10"] = func(c *Ctx) {
@@ -240,7 +240,7 @@ func init() {
 		c.runGcsFamily(gcsFamily{Label: "C10",
 			Models: []gcsModel{dataModel},
 			Gen: func(r *rand.Rand) []gcs.Op {
-				return genGcsProgram(r, gcsProfile{fileSafe: true, n: 80 + r.Intn(60), pCond: 0.15, wUpload: 3, wResum: 0.7, wPatch: 2.5, wDelete: 1.2, wRead: 1, wCompose: 0.6, wCopy: 0.6, wList: 0.4, fewNames: 3, maxResum: 12})
+				return genGcsProgram(r, gcsProfile{fileSafe: true, n: 80 + r.Intn(60), pCond: 0.15, wUpload: 3, wResum: 0.7, wPatch: 2.5, wDelete: 1.2, wRead: 1, wCompose: 0.6, wCopy: 0.6, wList: 0.4, fewNames: 3, maxResum: 12, wBatch: 0.6})
 			}, NRandQ: 16, NRandT: 600})
 		c.Assume("strict growth of generations drawn from the wall clock between two writes in the same clock tick can only be sampled; the law itself is checked on every sampled step")
 	}
